@@ -176,14 +176,15 @@ package database
 
 // termHits: the index lists document d under term t, the term is informative enough (idf at least
 // minIDF) and d passes the platform / pipeline filters.
-//@ opaque func termHits(db *Database, idx *universalIndex, t string, d int, o SearchOptions) bool = (t in idx.postings) && bm25IDF(idx.N, idx.df[t]) >= idx.params.minIDF && (exists j int :: 0 <= j && j < len(idx.postings[t]) && idx.postings[t][j].docID == d && platOK(&db.Commands[d], o) && pipeOK(&db.Commands[d], o))
+//@ opaque func termHits(db *Database, idx *universalIndex, t string, d int) bool = (t in idx.postings) && bm25IDF(idx.N, idx.df[t]) >= idx.params.minIDF && (exists j int :: 0 <= j && j < len(idx.postings[t]) && idx.postings[t][j].docID == d && eligible(&db.Commands[d]))
 // hitSome: some content word of the token sequence q hits document d.
-//@ opaque func hitSome(db *Database, idx *universalIndex, q seq, d int, o SearchOptions) bool = exists i int :: 0 <= i && i < seqlen(q) && termHits(db, idx, seqat(q, i), d, o)
+//@ opaque func hitSome(db *Database, idx *universalIndex, q seq, d int) bool = exists i int :: 0 <= i && i < seqlen(q) && termHits(db, idx, seqat(q, i), d)
 //@ func (*Database).calculateInitialScores
 //@   requires idxOK(db)
+//@   defines forall c *Command :: eligible(c) <==> (platOK(c, options) && pipeOK(c, options))
 //@   modifies nothing
 //@   ensures[C01.initial-scores-ok] fresh(result) && scoresOK(db, result, options)
-//@   ensures[C03.candidates-exact] forall d int :: (d in result) <==> (exists i int :: 0 <= i && i < len(terms) && termHits(db, db.uIndex, terms[i], d, options))
+//@   ensures[C03.candidates-exact] forall d int :: (d in result) <==> (exists i int :: 0 <= i && i < len(terms) && termHits(db, db.uIndex, terms[i], d))
 //@ loop 1
 //@   invariant termBoost != nil && fresh(termBoost) && scores != nil && fresh(scores) && len(scores) == 0
 //@ loop 2
@@ -192,7 +193,7 @@ package database
 //@   invariant termBoost != nil && fresh(termBoost) && scores != nil && fresh(scores) && len(scores) == 0
 //@ loop 4
 //@   invariant termBoost != nil && fresh(termBoost) && fresh(scores) && scoresOK(db, scores, options) && scores != termBoost
-//@   invariant forall d int :: (d in scores) <==> (exists i int :: 0 <= i && i < $i && termHits(db, idx, terms[i], d, options))
+//@   invariant forall d int :: (d in scores) <==> (exists i int :: 0 <= i && i < $i && termHits(db, idx, terms[i], d))
 
 // Multiplicative boosts are strictly positive (they re-rank, never flip a sign).
 //@ func applyIntentBoost
@@ -412,16 +413,16 @@ package database
 //@   ensures[C04.gates] gatesOK(result, options)
 //@   ensures[C01.keeps-db] db.Commands == old(db.Commands) && dbInv(db)
 //@   ensures[C03.index-current] db.uIndex != nil && db.uIndex.N == len(db.Commands)
-//@   ensures[C03.candidates-sound] !options.UseNLP && !options.UseFuzzy && db.embeddingIndex == nil ==> (forall k int :: 0 <= k && k < len(result) ==> hitSome(db, db.uIndex, tokensOf(query), cmdIdx(db, result[k].Command), options))
-//@   ensures[C03.candidates-complete] !options.UseNLP && db.embeddingIndex == nil && len(result) < effLimit(options.Limit) && seqlen(tokensOf(query)) <= (options.TopTermsCap <= 0 ? 10 : options.TopTermsCap) ==> (forall d int :: hitSome(db, db.uIndex, tokensOf(query), d, options) ==> (exists k int :: 0 <= k && k < len(result) && result[k].Command == &db.Commands[d]))
-//@   hint[C03.scores-sound] collectResults !options.UseNLP ==> (forall d int :: (d in scores) ==> hitSome(db, db.uIndex, tokensOf(query), d, options))
-//@   hint[C03.scores-complete] collectResults !options.UseNLP && seqlen(tokensOf(query)) <= termsCap ==> (forall d int :: hitSome(db, db.uIndex, tokensOf(query), d, options) ==> (d in scores))
+//@   ensures[C03.candidates-sound] !options.UseNLP && !options.UseFuzzy && db.embeddingIndex == nil ==> (forall k int :: 0 <= k && k < len(result) ==> hitSome(db, db.uIndex, tokensOf(query), cmdIdx(db, result[k].Command)))
+//@   ensures[C03.candidates-complete] !options.UseNLP && db.embeddingIndex == nil && len(result) < effLimit(options.Limit) && seqlen(tokensOf(query)) <= (options.TopTermsCap <= 0 ? 10 : options.TopTermsCap) ==> (forall d int :: hitSome(db, db.uIndex, tokensOf(query), d) ==> (exists k int :: 0 <= k && k < len(result) && result[k].Command == &db.Commands[d]))
+//@   hint[C03.scores-sound] collectResults !options.UseNLP ==> (forall d int :: (d in scores) ==> hitSome(db, db.uIndex, tokensOf(query), d))
+//@   hint[C03.scores-complete] collectResults !options.UseNLP && seqlen(tokensOf(query)) <= termsCap ==> (forall d int :: hitSome(db, db.uIndex, tokensOf(query), d) ==> (d in scores))
 //@   hint[C03.terms-are-tokens] calculateInitialScores !options.UseNLP ==> (forall m int :: 0 <= m && m < len(terms) ==> (exists i int :: 0 <= i && i < seqlen(tokensOf(query)) && seqat(tokensOf(query), i) == terms[m]))
 //@   hint[C03.sorted-from-scores] applyPostScoringBoosts forall k int :: 0 <= k && k < len(results) ==> (cmdIdx(db, results[k].Command) in scores)
 //@   hint[C03.sorted-all-scores] applyPostScoringBoosts forall d int :: (d in scores) ==> (exists k int :: 0 <= k && k < len(results) && results[k].Command == &db.Commands[d])
 //@   hint[C03.final-from-scores] return !options.UseNLP && db.embeddingIndex == nil ==> (forall k int :: 0 <= k && k < len(results) ==> (cmdIdx(db, results[k].Command) in scores))
 //@   hint[C03.final-all-scores] return !options.UseNLP && db.embeddingIndex == nil && len(results) < options.Limit ==> (forall d int :: (d in scores) ==> (exists k int :: 0 <= k && k < len(results) && results[k].Command == &db.Commands[d]))
-//@   hint[C03.final-complete] return !options.UseNLP && db.embeddingIndex == nil && len(results) < options.Limit && seqlen(tokensOf(query)) <= termsCap ==> (forall d int :: hitSome(db, db.uIndex, tokensOf(query), d, options) ==> (exists k int :: 0 <= k && k < len(results) && results[k].Command == &db.Commands[d]))
+//@   hint[C03.final-complete] return !options.UseNLP && db.embeddingIndex == nil && len(results) < options.Limit && seqlen(tokensOf(query)) <= termsCap ==> (forall d int :: hitSome(db, db.uIndex, tokensOf(query), d) ==> (exists k int :: 0 <= k && k < len(results) && results[k].Command == &db.Commands[d]))
 
 // ---------------------------------------------------------------------------
 // Legacy searches and helpers (C01, C10): helpers are always handed a command of the list.
